@@ -127,12 +127,13 @@ struct filter_iterator {
         ,own_filter_data_(false)
         ,nd_(PyArray_NDIM(array))
     {
-        numpy::aligned_array<T> filter_array(filter);
-        const npy_intp filter_size = filter_array.size();
+        // This constructor runs with the GIL released: do not build a reference
+        // counted wrapper of `filter` here (Py_INCREF/Py_DECREF without the lock).
+        const npy_intp filter_size = PyArray_SIZE(filter);
         bool* footprint = 0;
         if (compress) {
             footprint = new bool[filter_size];
-            typename numpy::aligned_array<T>::iterator fiter = filter_array.begin();
+            typename numpy::aligned_array<T>::iterator fiter(filter);
             for (int i = 0; i != filter_size; ++i, ++fiter) {
                 footprint[i] = !!(*fiter);
             }
@@ -142,7 +143,7 @@ struct filter_iterator {
         if (compress) {
             int j = 0;
             T* new_filter_data = new T[size_];
-            typename numpy::aligned_array<T>::iterator fiter = filter_array.begin();
+            typename numpy::aligned_array<T>::iterator fiter(filter);
             for (int i = 0; i != filter_size; ++i, ++fiter) {
                 if (*fiter) {
                     new_filter_data[j++] = *fiter;
